@@ -128,7 +128,10 @@ Theorem wf_net_preserved_more :
   /\ (forall h new r, wf_net r -> msg_static_ok r -> wf_net (mut_msg_static h new r))
   /\ (forall h node r, wf_net r -> wf_net (mut_msg_remove_recv h node r))
   /\ (forall h rc r, wf_net r -> msg_add_recv_ok h rc r -> wf_net (mut_msg_add_recv h rc r))
-  /\ (forall eid old new r, wf_net r -> enum_index_ok eid new r -> wf_net (mut_enum_value_index eid old new r)).
+  /\ (forall eid old new r, wf_net r -> enum_index_ok eid new r -> wf_net (mut_enum_value_index eid old new r))
+  /\ (forall h new r, wf_net r ->
+        Forall (fun b => NoDup (map rn_h (rb_nifs b)) /\ ~ In new (map rn_id (rb_nifs b))) (rt_buses r) ->
+        wf_net (mut_node_id_full h new r)).
 Proof. exact wf_net_preserved_more_lemma. Qed.
 Print Assumptions wf_net_preserved_more.
 
